@@ -31,7 +31,7 @@ def main():
         det = m.get("detected_by", {})
         conf = m.get("confirmed_in_scratch_worktree")
         ok = isinstance(conf, dict) and conf.get("demo_exit_clean") == 0 and conf.get("demo_exit_patched") not in (0, None) and conf.get("stable_tests_pass_with_patch")
-        rows.append(f"| {d} | {m.get('property')} | {str(m.get('summary'))[:160].replace('|','/')} | {str(m.get('needs'))[:160].replace('|','/')} | "
+        rows.append(f"| {d} | {m.get('property')} | {' '.join(str(m.get('summary')).split())[:160].replace('|','/')} | {' '.join(str(m.get('needs')).split())[:160].replace('|','/')} | "
                     f"{'yes' if ok else 'pending'} | {det.get('check')} {det.get('tier')} | {det.get('caught')} {det.get('note','')[:120]} |")
     with open("/verif/seeded/INDEX.md", "w") as f:
         f.write("# Seeded changes (written by independent sub-agents that saw only the property text) and the checks that catch them\n\n")
